@@ -20,6 +20,9 @@ def match_finding(findings, prop, signature):
         if f.get("property") != prop or f.get("status") != "known":
             continue
         if fnmatch.fnmatchcase(signature, f["signature"]):
+            allowed = f.get("allowed_suffixes")
+            if allowed is not None and signature.rsplit(":", 1)[-1] not in allowed:
+                continue
             return f
     return None
 
